@@ -95,6 +95,17 @@ def check_reader(prog: Program, res: Result, cls_q: str) -> None:
             return
         (sent if s else frames).append(c)
 
+    # every put blocks until there is room: a put that can give up (timeout=, block=False, put_nowait) raises queue.Full on a
+    # slow consumer - a frame is lost, or (in the finally block) the marker is never delivered and the consumer waits forever
+    for c in puts:
+        gives_up = len(c.args) > 1 or any((k.arg == "timeout" and astq.const_value(k.value) is not None) or (k.arg == "block" and astq.const_value(k.value) is not True) for k in c.keywords) or any(k.arg is None for k in c.keywords)
+        what = "end-of-stream marker" if c in sent else "frame"
+        res.ob("C13-final" if c in sent else "C13-once", not gives_up, fi.qualname, f"the {what} put blocks until delivered: {short(c, 50)}",
+               f"`{short(c, 70)}` can give up (timeout / non-blocking put): when the buffer stays full the {what} is dropped with queue.Full"
+               + (" and the consumer never sees the end of the stream" if c in sent else ""), f"{fi.module.relpath}:{c.lineno}")
+    nowait = [c for c in astq.method_calls(fn, "put_nowait") if _is_buffer_call(c, "put_nowait")]
+    res.ob("C13-once", not nowait, fi.qualname, "no non-blocking put into the frame buffer", f"`{short(nowait[0], 60) if nowait else ''}` drops its payload when the buffer is full", fi.where)
+
     # ---- C13-final -----------------------------------------------------
     res.ob("C13-final", len(sent) == 1, fi.qualname, "one end-of-stream put site",
            f"{len(sent)} end-of-stream put sites (expected exactly one)", fi.where)
@@ -167,11 +178,37 @@ def check_reader(prog: Program, res: Result, cls_q: str) -> None:
                "the read loop does not iterate an increasing unit-step range (frames skipped or out of order)",
                f"{fi.module.relpath}:{loop.lineno}")
         if ok_range and len(it.args) >= 1 and cls_q.endswith("VideoReader"):
+            # the frames read are video[K] for K over [start_idx, end_idx), and each is labelled with that very K:
+            #   for i in range(start, end): video[i], frame_idx i        or
+            #   for i in range(end - start) / range(self.total_len()): video[start + i], frame_idx start + i
+            var = loop.target.id if isinstance(loop.target, ast.Name) else None
             a0 = norm(it.args[0]) if len(it.args) >= 2 else "0"
-            a1 = norm(it.args[1]) if len(it.args) >= 2 else norm(it.args[0])
-            res.ob("C13-once", a0 == "self.start_idx" and a1 == "self.end_idx", fi.qualname,
-                   "range bounds are the requested (start_idx, end_idx)",
-                   f"the read loop iterates range({a0}, {a1}) instead of the requested range", f"{fi.module.relpath}:{loop.lineno}")
+            a1x = it.args[1] if len(it.args) >= 2 else it.args[0]
+            if isinstance(a1x, ast.Call) and isinstance(a1x.func, ast.Attribute) and norm(a1x.func.value) == "self" and not a1x.args and a1x.func.attr in ci.methods:
+                pr_ = astq.path_returns(ci.methods[a1x.func.attr].node)     # self.total_len() -> its returned expression
+                if pr_ and len(pr_) == 1 and pr_[0][1] is not None:
+                    a1x = pr_[0][1]
+            a1 = norm(a1x)
+            for c in frames:
+                d = _payload_dict(fn, c.args[0])
+                vi, vf = (astq.dict_literal_get(d, "image"), astq.dict_literal_get(d, "frame_idx")) if d is not None else (None, None)
+                xi = astq.expand_at(fn, vi, enclosing_stmt(c), keep=[var] if var else []) if vi is not None else None
+                reads = [n_ for n_ in ast.walk(xi) if isinstance(n_, ast.Subscript) and norm(n_.value) == "self.video"] if xi is not None else []
+                def _unint(e_):
+                    while isinstance(e_, ast.Call) and isinstance(e_.func, ast.Name) and e_.func.id == "int" and len(e_.args) == 1 and not e_.keywords:
+                        e_ = e_.args[0]
+                    return e_
+                K = norm(_unint(reads[0].slice)) if len(reads) == 1 else None
+                xf = astq.expand_at(fn, vf, enclosing_stmt(c), keep=[var] if var else []) if vf is not None else None
+                while isinstance(xf, ast.Call) and norm(xf.func).split(".")[-1] in ("tensor", "as_tensor", "int") and xf.args:
+                    xf = xf.args[0]
+                F_ = norm(_unint(xf)) if xf is not None else None
+                res.ob("C13-once", K is not None and K == F_, fi.qualname, "a frame is labelled with the index it was read at",
+                       f"the frame put reads `self.video[{K}]` but labels it frame_idx `{F_}`: records carry the index of another frame", f"{fi.module.relpath}:{c.lineno}")
+                absolute = (a0, a1) == ("self.start_idx", "self.end_idx") and K == var
+                relative = a0 == "0" and a1 == "self.end_idx - self.start_idx" and K in (f"self.start_idx + {var}", f"{var} + self.start_idx")
+                res.ob("C13-once", absolute or relative, fi.qualname, "the frames read are those of the requested (start_idx, end_idx)",
+                       f"the read loop iterates range({a0}, {a1}) and reads self.video[{K}]: not the requested range [start_idx, end_idx)", f"{fi.module.relpath}:{loop.lineno}")
         # payload depends on the loop variable
         seeds = astq.target_names(loop.target)
         dep = astq.dep_closure(loop.body, seeds)
